@@ -160,6 +160,7 @@ def run_case(spec):
     add_destinations(*dests)
     it = Interp(tape=tape, ser_hook=ser_hook)
     it.explicit_loggers = True
+    it.late_calls = True
     it.tb_without_exception = True
     it.strict_warnings = spec["i"] % 3 == 0  # a third of the processes run with warnings turned into errors
     try:
